@@ -153,6 +153,9 @@ func interpretablePkg(path string) bool {
 	if strings.HasPrefix(path, "github.com/ElrondNetwork/elrond-go-logger") {
 		return false
 	}
+	if path == "github.com/gogo/protobuf/proto" {
+		return false
+	}
 	if strings.HasPrefix(path, "github.com/ElrondNetwork/") || strings.HasPrefix(path, "github.com/gogo/protobuf") || strings.HasPrefix(path, "github.com/btcsuite/btcutil/bech32") {
 		return true
 	}
